@@ -1,15 +1,26 @@
 """C07 / C08 -- ListBox keyboard navigation: `keypress` (dispatch), `_keypress_up`, `_keypress_down`, `_keypress_max_left`,
-`_keypress_max_right`, `make_cursor_visible`, `ends_visible`, `update_pref_col_from_focus`.
+`_keypress_max_right`, `_keypress_page_up`, `_keypress_page_down`, `make_cursor_visible`, `ends_visible`,
+`update_pref_col_from_focus`, and what `change_focus` leaves in the scroll state (`change_focus#C07-scroll`).
 
-Built on contracts/C07_listbox.py (the walker as a chain around its focus, `calculate_visible` verified against it) and
-contracts/C08_listbox.py (ListWalker protocol, `shift_focus`, `change_focus`, `set_focus`).
+Built on contracts/C07_listbox.py (the walker as a chain around its focus -- chain(d, k), row prefix sums R(d, k) --,
+`calculate_visible` verified against it: the window is a gap-free stretch of the chain, every listed item IS a chain item,
+the trims lie inside the outermost listed items) and contracts/C08_listbox.py (ListWalker protocol -- positions name
+widgets --, `shift_focus`, `set_focus`).
 
 Statement clauses (C07): after every handled key the stored scroll state is sane (`lb_ok`: what `calculate_visible` and
-`render` ask of their callers) and puts a row of the focus widget inside the box; the cursor row of the focus widget is
-inside the box after a key the focus widget handled.  (C08): a key is offered to the focus widget only, exactly once and
-only if it is selectable, at the size `render` draws it with ((maxcol,)); an unhandled key comes back unchanged with
-nothing changed; 'up' / 'down' move the focus to the nearest selectable item with rows that `calculate_visible` lists in
-that direction, else scroll by one row."""
+`render` ask of their callers) and puts a row of the focus widget inside the box (offset < maxrow; an inset is stored as a
+fraction of the widget's rows and always leaves a row); the cursor row of the focus widget is inside the box after a key
+the focus widget handled.  (C08): a key is offered to the focus widget only, exactly once and only if it is selectable, at
+the size `render` draws it with ((maxcol,)); an unhandled key comes back unchanged with nothing changed; 'up' / 'down' move
+the focus -- along the walker's chain, in the direction of the key -- to the nearest item with rows that is selectable
+among those `calculate_visible` lists in that direction, else scroll by one row (the walker is asked for one more item
+with rows; the focus widget keeps the focus one row further as long as it is selectable and it and its cursor stay inside
+the box, else the outermost item takes it), else -- at the end of the list -- come back with nothing changed.
+
+Heights that depend on `focus` (C07-KF1): listed items carry rows((maxcol,), focus=False), change_focus / shift_focus store
+insets against rows((maxcol,), focus=True).  `_keypress_up` / `_keypress_down` can therefore be refused by change_focus
+(ListBoxError) -- their exceptional postcondition says: only for a new focus widget whose two heights differ; replayed on
+the real code, see on_raise of `lb_keypress_up`."""
 import z3
 
 from pyvc import seqs as Q
@@ -837,7 +848,7 @@ def _page_loop_try(v):
 
 
 def _page_contract(name):
-    @contract(LBX + f"ListBox.{name}", property=("C07", "C08"), replayable=False, contract_overrides={_CF: lb_change_focus_scroll}, abstract_contains=True)
+    @contract(LBX + f"ListBox.{name}", property="C07", replayable=False, contract_overrides={_CF: lb_change_focus_scroll}, abstract_contains=True)
     class k:
         """'page up' / 'page down' on a list that is not empty is always handled (None), and whatever candidate the procedure
         settles on -- through change_focus, shift_focus and the intermediate calculate_visible calls, whose preconditions are
